@@ -237,6 +237,8 @@ def classify(clause, case):
         return F1
     if clause.startswith("C04.consumer_disagrees_with_producer@delta."):
         return F1
+    if "empty_delta" in clause:
+        return F3 if clause.startswith("C20.") else clause
     if case.f2 and case.shape.startswith("TSD") and (
             clause.startswith(("C05.value_is_not_previous_plus_delta@", "C05.delta_is_not_the_net_effect_of_the_mutations@",
                                "C04.modified_items_disagree_with_child_flags@", "C20.replayed_value_differs", "C20.replayed_delta_differs",
